@@ -387,12 +387,12 @@ impl Monitor for C13 {
                 }
             }
         }
-        let exhaustive = self.tier == Tier::Thorough && container.len() <= 16384;
+        let exhaustive = self.tier == Tier::Thorough && container.len() <= 4096;
         if exhaustive {
             roffs = (0..=container.len()).collect();
             ctx.count("containers_with_every_offset");
         } else {
-            for _ in 0..self.tier.pick(12, 60) {
+            for _ in 0..self.tier.pick(12, 300) {
                 roffs.push(r.usize_below(container.len() + 1));
             }
         }
@@ -420,10 +420,10 @@ impl Monitor for C13 {
         for e in &g.embedded {
             woffs.extend_from_slice(&[e.start, e.stream_start, e.stream_start + 1, e.stream_start + e.span_len, e.stream_start + e.span_len + 1]);
         }
-        if self.tier == Tier::Thorough && f.len() <= 16384 {
+        if self.tier == Tier::Thorough && f.len() <= 4096 {
             woffs = (0..=f.len()).collect();
         } else {
-            for _ in 0..self.tier.pick(12, 60) {
+            for _ in 0..self.tier.pick(12, 300) {
                 woffs.push(r.usize_below(f.len() + 1));
             }
         }
